@@ -1008,6 +1008,18 @@ pub mod verif_hooks {
         ))
     }
 
+    /// Script of a character, twice, as big-endian ISO 15924 tags:
+    /// (the Unicode `Script` property as the `unicode-script` crate reports it by name,
+    ///  the crate's own `CharExt::script`, i.e. what `guess_segment_properties` works with).
+    pub fn script_tags(c: char) -> (u32, u32) {
+        let iso = unicode_script::UnicodeScript::script(&c).short_name().as_bytes();
+        let mut t = 0u32;
+        for i in 0..4 {
+            t = (t << 8) | u32::from(*iso.get(i).unwrap_or(&b' '));
+        }
+        (t, c.script().tag().0)
+    }
+
     /// true when the normalizer could change this text: some character decomposes, some ordered
     /// pair composes, or some character has a non-zero modified combining class.
     pub fn normalizer_may_act(text: &[char]) -> bool {
